@@ -378,6 +378,8 @@ def run_protocol_refused(ctx, rng):
         "scripted-slow-deny": lambda: M.MiddlewareChain([SpyMiddleware({"outcome": "deny", "delay": 0.2, "response": "44 Slow\r\n"}, [], None)]),
         "scripted-raise": lambda: M.MiddlewareChain([SpyMiddleware({"outcome": "raise"}, [], None)]),
         "allow": lambda: M.MiddlewareChain([M.AccessControl(M.AccessControlConfig(deny_list=["203.0.113.0/24"]))]),
+        # admitted, but only after the request timeout would have fired: the complete upload is answered 2x and stored
+        "allow-after-35s": lambda: M.MiddlewareChain([SpyMiddleware({"outcome": "allow", "delay": 35}, [], None)]),
     }
     for cname, mk in chains.items():
         for path, pclass in (("/new.txt", "plain-new"), ("/existing.txt", "existing-file"), ("/sub/new.gmi", "nested-new")):
@@ -400,7 +402,7 @@ def run_protocol_refused(ctx, rng):
                                     comp.loop = asyncio.get_event_loop()
                             return c
 
-                    rows = effect_probe(Patched(), [("192.0.2.9", 40000)], [line + body], upload=h, settle=1.0)
+                    rows = effect_probe(Patched(), [("192.0.2.9", 40000)], [line + body], upload=h, settle=1.0 if cname != "allow-after-35s" else 60.0)
                     after = fstree.snapshot([base])
                     status = rows[0][2]
                     from nauyaca.protocol.request import TitanRequest
@@ -408,7 +410,7 @@ def run_protocol_refused(ctx, rng):
                     req = TitanRequest.from_line(line[:-2].decode())
                     req.content = body
                     ctx.count("monitor", "protocol_uploads_behind_middleware")
-                    if cname != "allow":
+                    if not cname.startswith("allow"):
                         ctx.count("monitor", "refused_by_middleware")
                         d = fstree.diff(before, after)
                         wit = {"via": "L1+middleware", "chain": cname, "request_line": line[:-2].decode(), "status": status, "diff": [(os.fsdecode(p).replace(base, "<base>"), c) for p, c, _, _ in d][:6]}
